@@ -7,3 +7,15 @@ a = s.index('<!-- SEEDS-BEGIN -->') + len('<!-- SEEDS-BEGIN -->')
 b = s.index('<!-- SEEDS-END -->')
 tab = subprocess.run(['python3', '/verif/tools/seedtable.py'], capture_output=True, text=True).stdout
 open(p, 'w').write(s[:a] + '\n' + tab + s[b:])
+
+# fixed defects
+s = open(p).read()
+a = s.index('<!-- FIXED-BEGIN -->') + len('<!-- FIXED-BEGIN -->')
+b = s.index('<!-- FIXED-END -->')
+lines = []
+for l in open('/verif/known_findings.txt'):
+    if l.startswith('fixed:'):
+        parts = l.split(None, 3)
+        lines.append('* %s `%s` — %s' % (parts[1].replace('property=', ''), parts[2], parts[3].strip()))
+lines.sort()
+open(p, 'w').write(s[:a] + '\n' + '\n'.join(lines) + '\n' + s[b:])
